@@ -347,33 +347,120 @@ def e2_cost(table):
     return cost
 
 
-def select(table, tier, pred):
-    return sorted(h for h, m in table.items() if (tier == "thorough" or m.get("quick")) and pred(m))
+def select(table, pred):
+    return sorted(h for h, m in table.items() if pred(m))
+
+
+def hq(units, names):
+    return [f"h_gen::{u}::{n}" for u in units for n in names]
+
+
+def hh(*names):
+    return [f"h_helpers::{n}" for n in names]
+
+
+SMALL = ["bf2", "bf3", "bf4", "bf5", "bf8", "dft2", "r4_4", "r3_3"]
+BFS = ["bf1", "bf2", "bf3", "bf4", "bf5", "bf6", "bf7", "bf8", "dft1", "dft2", "dft3", "r4_1", "r4_2", "r4_4", "r4_8", "r3_1", "r3_3", "r3_9"]
+WRAP = ["mr_2x3", "mr_2x2", "mrs_2x3", "gts_2x3", "r4b_1_1", "r3b_1_1", "rn_3_b2", "rader3"]
+CONTRACTS = ["validate_and_iter_contract", "validate_and_zip_contract", "validate_and_zip_mut_contract",
+             "validate_and_iter_unroll2x_contract", "validate_and_zip_unroll2x_contract", "validate_and_zip_mut_unroll2x_contract"]
+HELPERS = ["fft_helper_inplace_well", "fft_helper_inplace_ill", "fft_helper_outofplace_well", "fft_helper_outofplace_ill",
+           "fft_helper_immut_well", "fft_helper_immut_ill", "fft_helper_inplace_unroll2x_ill", "fft_helper_outofplace_unroll2x_ill",
+           "fft_helper_immut_unroll2x_ill", "fft_error_inplace_ill", "fft_error_outofplace_ill", "fft_error_immut_ill"]
+
+# quick tiers: explicit lists of harnesses that decide in about a minute each when run alone
+QUICK_E2 = {
+    "C15": hq(BFS, ["imm_well_k1"]) + hq(["bf2", "bf4", "bf8", "dft2"], ["imm_well_k2"]) + hq(WRAP, ["imm_well_k1"]),
+    "C03": hq(["bf2", "bf3", "bf4", "bf5", "bf6", "bf7", "bf8", "dft2", "dft3", "r4_4", "r4_8", "r3_3"], ["oop_well_k1"])
+           + hq(["bf2", "bf3", "bf4", "bf5", "dft2", "r4_4", "r3_3"], ["ps_ill", "oop_ill", "imm_ill"])
+           + hq(["mr_2x3", "mrs_2x3", "r4b_1_1", "rn_3_b2"], ["ps_well_k1", "oop_well_k1"]) + hh(*CONTRACTS),
+    "C09": hh(*HELPERS) + hh(*CONTRACTS) + hq(["bf1"], ["oop_ill", "imm_ill", "ps_well_k1"]) + hq(["bf2", "bf3", "bf4", "dft2", "r4_4", "r3_3"], ["ps_ill", "oop_ill", "imm_ill", "ps_well_k1"])
+           + hq(["mr_2x2", "rn_2_b1"], ["ps_ill", "ps_well_k1"]),
+    "C07": hq(["bf2", "bf3", "bf4"], ["ps_well_k2", "oop_well_k2", "imm_well_k2", "ps_well_k3", "oop_well_k3", "imm_well_k3"])
+           + hq(["bf8", "dft2", "r4_4", "r3_3"], ["ps_well_k2", "oop_well_k2"]) + hq(["mr_2x2", "mrs_2x3"], ["ps_well_k2"])
+           + hh("validate_and_iter_unroll2x_contract", "validate_and_zip_unroll2x_contract", "validate_and_zip_mut_unroll2x_contract", "validate_and_iter_contract"),
+    "C08": hq(["mr_2x3", "mr_2x2", "mrs_2x3", "gts_2x3", "r4b_1_1", "r3b_1_1", "rn_3_b2", "rn_23_b1", "rader3", "blue1_1"], ["ps_well_k1", "oop_well_k1", "imm_well_k1"])
+           + hh("validate_and_iter_contract", "validate_and_zip_contract", "validate_and_zip_mut_contract"),
+    "C12": hq(["mr_2x3", "mrs_2x2", "gts_3x2", "rader3", "blue1_1", "r4b_1_2", "r3b_1_2", "rn_2_b1", "rn_5_b1", "gt_1x2"], ["ps_well_k1"])
+           + hq(["mr_2x3", "mrs_2x2", "rader3", "r4b_1_1", "rn_2_b1"], ["ps_ill"]),
+}
 
 
 def run_e2(res, pid, tier, seed, only, pred, title, bounds, **kw):
     e2 = _e2(pid, tier, seed, **kw)
-    hs = _filter(select(e2.table, tier, pred), only)
+    if tier == "quick":
+        hs = [h for h in QUICK_E2[pid] if h in e2.table]
+        missing = [h for h in QUICK_E2[pid] if h not in e2.table]
+        if missing:
+            res.inconclusive.append("quick list names unknown harnesses: " + ", ".join(missing[:5]))
+    else:
+        hs = select(e2.table, pred)
+    hs = _filter(hs, only)
     if not hs:
         return None
-    s = e2.run(hs, cost=e2_cost(e2.table))
+    s = e2.run(hs, cost=e2_cost(e2.table), batch=4 if tier == "quick" else 6)
     units = sorted({e2.table[h]["unit"] for h in hs})
     b = dict(bounds, harnesses=len(hs), units=units, per_harness_timeout_s=e2.timeout, workers=e2.workers)
+    if tier == "thorough":
+        # harnesses that are not on the committed expected-to-decide list may run out of time: outside the bound, not a failure
+        exp = expected_decided()
+        keep = []
+        for m in e2.inconclusive:
+            h = m.split(":", 1)[0].rsplit(": ", 1)[0]
+            hname = m.split(": ", 1)[0]
+            if hname in exp or ("TIMEOUT" not in m and "ERROR" not in m):
+                keep.append(m)
+            else:
+                res.outside.append("did not finish under the cap: " + hname)
+        e2.inconclusive = keep
     res.add_e2(title, e2, s, b)
     return e2
+
+
+def expected_decided():
+    try:
+        import json as _j
+        tm = _j.load(open(os.path.join(C.VERIF, "kshape", "timings.json")))
+        return {h for h, t in tm.items() if isinstance(t, (int, float)) and t <= 200}
+    except Exception:
+        return set()
+
+
+W_BOUNDS = {"chunk_counts": "compile-time constants 1..3 (small units), 1..2 (wrappers, larger butterflies)", "scratch": "advertised + {0,1,2} (symbolic)",
+            "inner_needs": "0..=len+2 each (symbolic)", "ill_shaped_lengths": "data, output 0..=2n+1, scratch 0..=capacity (symbolic, exact-size heap objects)"}
 
 
 def check_c15(pid, tier, seed, only):
     res = Result(pid, tier, seed)
     run_e2(res, pid, tier, seed, only, lambda m: m["kind"] == "well" and m["entry"] == "imm",
            "process_immutable_with_scratch leaves every input element unchanged (Tag snapshot comparison) for every symbolic scratch length and inner-scratch need; also nothing outside the caller slices is written",
-           {"chunk_counts": "1..3 (butterflies <= 13, dft), 1..2 (wrappers, larger butterflies)", "scratch": "advertised + {0,1,2}", "inner_needs": "0..=len+2 (symbolic)"})
-    res.outside += ["calls that end in a panic (Kani cannot observe state after a panic)", "SSE/AVX kernels and planned SIMD transforms"]
+           W_BOUNDS)
+    res.outside += ["calls that end in a panic (Kani cannot observe state after a panic)", "SSE/AVX kernels and planned SIMD transforms (f32/f64 only; Kani cannot compile the AVX intrinsics)"]
+    return res
+
+
+def check_c03(pid, tier, seed, only):
+    res = Result(pid, tier, seed)
+    run_e2(res, pid, tier, seed, only, lambda m: True,
+           "every pointer dereference / get_unchecked / copy in bounds of its object for well-shaped calls (exact-size buffers) and ill-shaped calls (exact-size heap objects of every symbolic length); ill-shaped calls end in a documented panic on every path",
+           W_BOUNDS)
+    res.outside += ["planners; SSE/AVX kernels (f32/f64 only; Kani cannot compile the AVX intrinsics)", "lengths above the listed units", "transpose::transpose (dependency) is replaced by a model with checked indexing"]
+    return res
+
+
+def check_c09(pid, tier, seed, only):
+    res = Result(pid, tier, seed)
+    run_e2(res, pid, tier, seed, only, lambda m: m["kind"] == "ill" or m["group"] == "helper" or (m["kind"] == "well" and m["k"] == 1),
+           "well-shaped calls never panic and visit every chunk; every ill-shaped call (length not a multiple of n, input/output lengths differ, scratch short) panics on every path (cover after the call unreachable); the validators return Err exactly for ill-shaped arguments and fft_error_* panics for every rejected tuple",
+           W_BOUNDS)
+    res.outside += ["planned SIMD transforms", "fft_error_* arguments above 2^16"]
     return res
 
 
 CHECKS = {
     "C15": check_c15,
+    "C03": check_c03,
+    "C09": check_c09,
     "C01": check_c01,
     "C06": check_c06,
     "C07": check_c07,
